@@ -76,7 +76,7 @@ func validResponse(rng *rand.Rand, maxPlayers, maxObjs, maxFrag int) [][]byte {
 		s := u.RandStatus(rng, rng.Intn(maxPlayers+1), rng.Intn(maxObjs+1))
 		d := u.Dialects[rng.Intn(len(u.Dialects))]
 		flat := s.Flat()
-		cuts := u.RandCuts(rng, len(flat), 1+rng.Intn(maxFrag), d == "gs1")
+		cuts := u.RandCuts(rng, len(flat), 1+rng.Intn(maxFrag), d == "gs1" && rng.Intn(2) == 0)
 		ds := u.Encode(d, s, cuts)
 		ok := true
 		for _, x := range ds {
